@@ -38,6 +38,9 @@ type c10Peer struct {
 	SpinLong bool   `json:"spin_long,omitempty"`
 	SpinUs   int64  `json:"spin_us,omitempty"`
 	Hold0    bool   `json:"hold0,omitempty"` // the peer is configured with hold time 0 (no session timers)
+	// RHold0: the remote's OPEN proposes hold time 0 (the peer's own configuration says 90): no
+	// session timers either; an Established session has received an UPDATE when the stop arrives
+	RHold0 bool `json:"rhold0,omitempty"`
 }
 
 type c10Conc struct {
@@ -202,8 +205,16 @@ func c10Prop(t *testing.T, r *hx.Run, sub string) func(c c10Case) hx.Verdict {
 					return cn
 				}
 				to := func(cn *memnet.Conn, state string) {
-					for _, m := range handshakeBytes(sp, cn, state, 90) {
+					rhold := uint16(90)
+					if p.RHold0 {
+						rhold = 0
+					}
+					for _, m := range handshakeBytes(sp, cn, state, rhold) {
 						cn.RemoteSend(m, nil)
+						w.Settle()
+					}
+					if p.RHold0 && state == stEstablished {
+						cn.RemoteSend(wire.Frame(wire.TypeUpdate, taggedUpdate(0xC1000000, 9)), nil)
 						w.Settle()
 					}
 				}
@@ -670,13 +681,97 @@ func c10Prop(t *testing.T, r *hx.Run, sub string) func(c c10Case) hx.Verdict {
 var c10Parks = []string{"idle-due", "active-due", "twins-in", "opensent-in-partial", "established-in-partial", "opensent-out-partial", "established-out-partial", "idle", "dial-stalled", "dial-held", "active", "opensent-out", "openconfirm-out", "established-out",
 	"opensent-in", "openconfirm-in", "established-in", "collision", "collision2", "held-down", "writers-in", "writers-out"}
 
+// ---- the stop arrives at the instant a session timer fires
+
+// An Established session with hold time 3: the keepalive timer fires one virtual second
+// after the handshake, the hold timer after three (the remote stays silent). The stop is
+// called at that very instant, a drawn number of microseconds into the (slowed down)
+// write of the KEEPALIVE / the Hold Timer Expired NOTIFICATION.
+type c10TimerDue struct {
+	Timer   string `json:"timer"` // keepalive, hold
+	API     string `json:"api"`   // close, del
+	Out     bool   `json:"out"`
+	SpinUs  int64  `json:"spin_us"`  // duration of corebgp's writes
+	AfterUs int64  `json:"after_us"` // real-time delay between the timer instant and the call
+	RHold   uint16 `json:"rhold"`    // the remote's hold time (3: timers as described; 0 is not used here)
+}
+
+func c10TimerDueProp(t *testing.T, r *hx.Run, sub string) func(c c10TimerDue) hx.Verdict {
+	return func(c c10TimerDue) hx.Verdict {
+		r.SetCurrent(sub, c)
+		v := hx.Verdict{Class: fmt.Sprintf("%s/%s/out=%v", c.Timer, c.API, c.Out)}
+		v.NT = fmt.Sprintf("%+v", c)
+		p := world.PeerSpec{Remote: "10.0.0.2", LocalAS: 64512, RemoteAS: 64513, Passive: !c.Out, Hold: 3, IdleHoldMs: 5000, ConnRetryMs: 5000}
+		var dev *hx.Dev
+		fail := func(key, f string, a ...any) {
+			if dev == nil {
+				dev = hx.Devf(key, f, a...)
+			}
+		}
+		o, serr := world.Single(t, "10.0.0.1", p, c.Out, nil, func(w *world.World, conn *memnet.Conn) {
+			world.Handshake(w, p, conn, c.RHold, 0x0a000002)
+			if w.Sessions(p.Remote) != 1 {
+				fail("setup", "session did not establish")
+				return
+			}
+			w.Net.SetWriteSpin(c.SpinUs)
+			defer w.Net.SetWriteSpin(0)
+			d := time.Second
+			if c.Timer == "hold" {
+				d = 3 * time.Second
+			}
+			time.Sleep(d) // wakes at the virtual instant the timer fires
+			memnet.Spin(c.AfterUs)
+			var ok bool
+			var took time.Duration
+			if c.API == "close" {
+				ok, took = w.Call("Close", "", 5*time.Second, w.Srv.Close)
+			} else {
+				ok, took = w.Call("DeletePeer", p.Remote, 5*time.Second, func() { w.Srv.DeletePeer(p.RemoteAddr()) })
+			}
+			if !ok {
+				fail("stop-blocked", "%s called at the instant the %s timer fired did not return within %v", c.API, c.Timer, took)
+				return
+			}
+			nEst, nClose := 0, 0
+			for _, e := range w.Rec.Events() {
+				switch e.K {
+				case "est+":
+					nEst++
+				case "close-":
+					nClose++
+				}
+			}
+			if nClose != nEst {
+				fail("onclose-missing", "after %s returned: %d OnEstablished, %d OnClose finished", c.API, nEst, nClose)
+				return
+			}
+			if !conn.Snapshot().LocalClosed {
+				fail("connection-left-open", "after %s returned the session's connection is still open", c.API)
+				return
+			}
+			if _, perr := world.Parsed(conn); perr != nil {
+				fail("malformed-stream", "%v", perr)
+			}
+		})
+		if serr != nil {
+			fail("setup", "%v", serr)
+		}
+		if b := o.Bad(); b != "" {
+			fail("wedge", "%s", b)
+		}
+		v.Dev = dev
+		return v
+	}
+}
+
 func genC10(rt *rapid.T) c10Case {
 	c := c10Case{API: pick(rt, "api", "close", "close", "del", "del", "del-add", "liserr")}
 	c.Listeners = pick(rt, "listeners", 0, 0, 1, 2)
 	n := rapid.IntRange(1, 3).Draw(rt, "npeers")
 	for i := 0; i < n; i++ {
 		p := c10Peer{Park: c10Parks[rapid.IntRange(0, len(c10Parks)-1).Draw(rt, "park")], Passive: rapid.Bool().Draw(rt, "passive"),
-			Hold0: rapid.IntRange(0, 3).Draw(rt, "hold0") == 0}
+			Hold0: rapid.IntRange(0, 3).Draw(rt, "hold0") == 0, RHold0: rapid.IntRange(0, 3).Draw(rt, "rhold0") == 0}
 		if rapid.IntRange(0, 5).Draw(rt, "spin") == 0 {
 			p.SpinCb = pick(rt, "spincb", "caps", "open", "est", "upd", "close")
 			p.SpinLong = rapid.Bool().Draw(rt, "spinlong")
@@ -776,6 +871,22 @@ func TestC10(t *testing.T) {
 			}
 		}
 	}, c10Prop(t, r, "stop_when_dial_is_due"))
+
+	hx.Enum(r, t, "stop_when_session_timer_is_due", 0, func(yield func(c10TimerDue) bool) {
+		for _, timer := range []string{"keepalive", "hold"} {
+			for _, api := range []string{"close", "del"} {
+				for _, out := range []bool{false, true} {
+					for _, spin := range []int64{100, 300} {
+						for _, after := range []int64{0, 10, 40, 120} {
+							if !yield(c10TimerDue{Timer: timer, API: api, Out: out, SpinUs: spin, AfterUs: after, RHold: 3}) {
+								return
+							}
+						}
+					}
+				}
+			}
+		}
+	}, c10TimerDueProp(t, r, "stop_when_session_timer_is_due"))
 
 	hx.Rapid(r, t, "stop_at_every_point", r.N(2500, 25000), genC10, c10Prop(t, r, "stop_at_every_point"))
 
